@@ -76,6 +76,13 @@ def inner_programs(tier):
     b = {"calls": [["from", V], ["select", [["f", "v", "x"]]], ["orderby", [A(["f", "v", "x"], "ob")], "asc"], ["limit", 3]]}
     yield {"calls": a["calls"] + [["union", b]]}
     yield {"calls": a["calls"] + [["union_all", b], ["orderby", [A(ux, "k")], "asc"], ["limit", 4]]}
+    # operands that carry their own alias, ORDER BY on an aliased term that the select list does not define, and on a
+    # plain column (must stay unqualified: it names a result column of the compound select)
+    a2 = {"calls": a["calls"] + [["as", "opa"]]}
+    b2 = {"calls": b["calls"] + [["as", "opb"]]}
+    yield {"calls": a2["calls"] + [["union", b2]]}
+    yield {"calls": a["calls"] + [["union", b], ["orderby", [A(ux, "zz")], "desc"]]}
+    yield {"calls": a["calls"] + [["intersect", b2], ["orderby", [ux], "asc"], ["offset", 1], ["limit", 2]]}
 
 
 # ---- embedding positions: fn(Q, I) -> (outer object, wrap, alias) ----------------------------------------------
